@@ -311,6 +311,41 @@ class Check:
             self._ex = cf.ThreadPoolExecutor(max_workers=6)
         self._bg.append(self._ex.submit(self.mc, module, cfg, **kw))
 
+    def apalache_bg(self, module, init, inv, length, must_fail=False, timeout=900):
+        """a symbolic (SMT) check with Apalache: `inv` holds in every state reachable in `length` steps from
+        `init` (length 0 with the model's Init = base case; length 1 from the invariant itself = inductive step)"""
+        if not hasattr(self, '_bg'):
+            self._bg = []
+            self._ex = cf.ThreadPoolExecutor(max_workers=6)
+        self._bg.append(self._ex.submit(self.apalache, module, init, inv, length, must_fail, timeout))
+
+    def apalache(self, module, init, inv, length, must_fail=False, timeout=900):
+        out_dir = '%s/apalache/%s_%s_%s_%d' % (BUILD, self.pid, module, inv, length)
+        shutil.rmtree(out_dir, ignore_errors=True); os.makedirs(out_dir)
+        t0 = time.time()
+        cmd = ['apalache-mc', 'check', '--init=' + init, '--inv=' + inv, '--length=%d' % length, '--out-dir=' + out_dir, module + '.tla']
+        try:
+            p = subprocess.run(cmd, cwd=ROOT + '/spec', stdout=subprocess.PIPE, stderr=subprocess.STDOUT, timeout=timeout)
+            rc, out = p.returncode, p.stdout.decode(errors='replace')
+        except subprocess.TimeoutExpired:
+            raise Infra('apalache %s %s did not finish in %d s' % (module, inv, timeout))
+        entry = {'model': '%s (Apalache: init %s, invariant %s, length %d)' % (module, init, inv, length), 'distinct_states': None, 'generated': None,
+                 'wall_s': round(time.time() - t0, 1), 'actions': {}, 'symbolic': True}
+        ok = rc == 0 and 'EXITCODE: OK' in out
+        refuted = rc == 12 or 'Checker has found an error' in out
+        if not ok and not refuted:
+            raise Infra('apalache failed on %s/%s: %s' % (module, inv, out[-400:]))
+        if must_fail:
+            entry['negative_test'] = True
+            if ok: raise Infra('negative Apalache check %s/%s unexpectedly passed' % (module, inv))
+            self.cov['models'].append(entry); return
+        self.cov['models'].append(entry)
+        if refuted:
+            rd = self.replay_dir('apalache_%s_%s' % (module, inv))
+            with open(rd + '/apalache.out', 'w') as f: f.write(out)
+            with open(rd + '/replay.sh', 'w') as f: f.write('#!/bin/sh\ncd %s/spec && %s\n' % (ROOT, ' '.join(cmd)))
+            self.violation('model:%s:%s' % (module, inv), 'Apalache refutes %s in %s' % (inv, module), rd)
+
     def join_bg(self):
         for f in getattr(self, '_bg', []):
             f.result()
